@@ -25,7 +25,7 @@ pub fn spec() -> Spec {
         case_cap_s: |t| t.pick(300, 3600),
         rule: "one case per connected complete symbol: every labeled 2- and 3-dimensional symbol of size <= 3 with branching in {1,2,3} (every labeling), every DSyms output over DSets(2, <= N), the harness-built 2-sheeted covers of the labeled symbols of size <= 2, (thorough) 3-dimensional size 4 with branching {1,2}. Structural clauses read off the returned maps; group clauses against the textbook presentation built by the reference model: equal abelian invariants, equal subgroup class counts up to an index, for finite groups equal order (= 4/K for good spherical 2D symbols) and mutually inverse generator maps verified in the regular representations. Non-trivial = at least one generator.",
         assumptions: &["class counts are compared only while (n!)^generators <= 2*10^6 for both presentations; skipped comparisons are counted in the evidence"],
-        bounds: |t| json!({"labeled_max_size": 3, "V": [1,2,3], "dsyms_dsets_max_size": t.pick(8, 10), "class_index": 4, "deep_class_index": t.pick(5, 6), "deep_class_node_cap": t.pick(20000, 200000), "larger_3d_symbols": "corpus, prisms over euclidean 2D symbols of size <= 3 [4], admissible symbols of size <= 2 [3] with branching 4 or 6, 3D Coxeter coset symbols to 48 [120] chambers", "order_cap": 3000, "dim3_size4": t.pick("V = {1,2}", "V = {1,2,3} with <= 3 branched orbits")}),
+        bounds: |t| json!({"labeled_max_size": 3, "V": [1,2,3], "dsyms_dsets_max_size": t.pick(8, 10), "class_index": 4, "deep_class_index": t.pick(5, 6), "deep_class_node_cap": t.pick(20000, 200000), "degenerate_degree_family": "every generator D-set of dim 2 with 4-9 [10] chambers and dim 3 with 4-6 [8], unbranched and with one orbit at v = 2 or 3", "larger_3d_symbols": "corpus, prisms over euclidean 2D symbols of size <= 3 [4], admissible symbols of size <= 2 [3] with branching 4 or 6, 3D Coxeter coset symbols to 48 [120] chambers", "order_cap": 3000, "dim3_size4": t.pick("V = {1,2}", "V = {1,2,3} with <= 3 branched orbits")}),
     }
 }
 
@@ -384,6 +384,35 @@ fn run(ctx: &mut Ctx) {
             if ctx.take() {
                 ctx.add("larger_3d_symbols", 1);
                 check_symbol(ctx, fam, &sy);
+            }
+        }
+    }
+    // every D-set of the generator with the degenerate degrees the symbol generator never assigns (faces and
+    // vertices of degree 1 and 2: v = 1 on every orbit, and one orbit with v = 2 or 3): dimension 2 up to 9 [10]
+    // chambers, dimension 3 up to 6 [8]
+    {
+        use rust_dsymbols::dsets::DSet;
+        for (dim, hi, step) in [(2usize, tier.pick(9, 10), 1usize), (3, tier.pick(6, 8), 1)] {
+            let mut it = ctx.supply("DSets::new", || Some(DSets::new(dim, hi)));
+            let mut k = 0usize;
+            loop {
+                let ds = match it.as_mut().map(|g| ctx.guard(|| g.next())) {
+                    Some(Ok(Some(d))) => d,
+                    _ => break,
+                };
+                k += 1;
+                if ds.size() < 4 || k % step != 0 || !ctx.take() {
+                    continue;
+                }
+                if let Some(plain) = from_dset(&ds) {
+                    if plain.is_involutive() && plain.is_connected() && plain.commutes() {
+                        let maxb = if plain.n <= 8 { 1 } else { 0 };
+                        for_each_branching(&plain.ops, &[1, 2, 3], maxb, &mut |sy| {
+                            ctx.add("degenerate_degree_symbols", 1);
+                            check_symbol(ctx, "unbranched", sy);
+                        });
+                    }
+                }
             }
         }
     }
